@@ -52,6 +52,10 @@ class _SktimeForecaster(BaseForecaster):
             y, X, allow_empty=False, enforce_index_type=enforce_index_type
         )
 
+        # a (re-)fit starts from scratch: until it has completed, the forecaster
+        # does not count as fitted, so that `fh` stays optional in `fit`
+        self._is_fitted = False
+
         # set initial cutoff to the end of the training data
         self._set_cutoff(y.index[-1])
 
